@@ -796,6 +796,15 @@ def extract_macro(repo):
     body = norm(fn_body(d, 'contains_component'))
     if body != 'for component in self.components.iter() { if component.name == name.to_string() { return true; } } false':
         raise ExtractError('contains_component: unexpected body %r' % body)
+    # explicit ids: the literal is parsed straight into the u8 field, so anything above 255 is a parse error
+    a = strip_comments(open(os.path.join(repo, 'macros/src/parse/attribute.rs')).read())
+    if not re.search(r'pub struct ParseAttributeId \{ pub value: u8, \}', norm(a)):
+        raise ExtractError('parse/attribute.rs: ParseAttributeId.value is not u8')
+    body = norm(fn_body(a, 'parse', within=r'impl\s+Parse\s+for\s+ParseAttributeId\s*'))
+    if body != 'let args; parenthesized!(args in input); let value = args.parse::<LitInt>()?.base10_parse()?; Ok(Self { value })':
+        raise ExtractError('ParseAttributeId::parse: unexpected body %r' % body)
+    out.append('(* parse/attribute.rs: explicit ids are parsed by LitInt::base10_parse into a u8 field *)')
+    out.append('Definition explicit_id_max : N := 255.')
     # the cfg-probing macro_rules! chain (generate/cfg.rs): how each link extends the list of booleans
     c = strip_comments(open(os.path.join(repo, 'macros/src/generate/cfg.rs')).read())
     out.append('(* generate/cfg.rs: each link of the macro_rules! chain is emitted twice, under #[cfg(p)] and #[cfg(not(p))];')
